@@ -23,73 +23,134 @@ theorem route_some {hooks : List Hook} {conf wid : Str} {i : Nat} {b : Binding}
       rcases List.mem_append.1 hm with hm | hm <;> exact (List.mem_filter.1 hm).1
     exact ⟨⟨hk, hmem, hid, h2⟩, h1, h3⟩
 
+/-- who ran is who `route` chose (closure level) -/
+theorem eventHandler_ran (hooks : List Hook) (run : Nat → Binding → Outcome) (conf wid : Str) :
+    (eventHandler hooks run conf wid).2 = route hooks conf wid := by
+  simp only [eventHandler]
+  cases route hooks conf wid with
+  | none => rfl
+  | some ib =>
+    obtain ⟨i, b⟩ := ib
+    simp only
+    split
+    · rfl
+    · split <;> rfl
+
+/-- the task prop is the parsed response file of a run in which nothing failed -/
+theorem taskProp_some {o : Outcome} {r : HookResp} (h : taskProp o = some r) :
+    o.exitZero = true ∧ o.othersOk = true ∧ o.file = .valid r := by
+  unfold taskProp at h
+  split at h
+  · cases h
+  · rename_i hf
+    split at h
+    · rename_i r' hv
+      simp only [Option.some.injEq] at h
+      subst h
+      simp only [taskFails, Bool.or_eq_true, Bool.not_eq_true', beq_iff_eq, not_or,
+        Bool.not_eq_false] at hf
+      exact ⟨hf.1.1, hf.2, hv⟩
+    · cases h
+
+theorem taskProp_of_ok {o : Outcome} {r : HookResp} (he : o.exitZero = true) (ho : o.othersOk = true)
+    (hf : o.file = .valid r) : taskFails o = false ∧ taskProp o = some r := by
+  have h1 : taskFails o = false := by simp [taskFails, he, ho, hf]
+  exact ⟨h1, by simp [taskProp, h1, hf]⟩
+
+/-- the closure hands on a hook response only if the path routes to a hook and binding whose run
+exited zero, left every other output file applicable and wrote that valid response -/
+theorem eventHandler_resp {hooks : List Hook} {run : Nat → Binding → Outcome} {conf wid : Str}
+    {r : HookResp} (h : (eventHandler hooks run conf wid).1 = .resp r) :
+    ∃ i b, route hooks conf wid = some (i, b) ∧ (run i b).exitZero = true ∧
+      (run i b).othersOk = true ∧ (run i b).file = .valid r := by
+  simp only [eventHandler] at h
+  cases hroute : route hooks conf wid with
+  | none => simp [hroute] at h
+  | some ib =>
+    obtain ⟨i, b⟩ := ib
+    simp only [hroute] at h
+    split at h
+    · cases h
+    · cases hp : taskProp (run i b) with
+      | none => simp [hp] at h
+      | some r' =>
+        simp only [hp, EventRet.resp.injEq] at h
+        subst h
+        exact ⟨i, b, rfl, taskProp_some hp⟩
+
+theorem eventHandler_of_ok {hooks : List Hook} {run : Nat → Binding → Outcome} {conf wid : Str}
+    {i : Nat} {b : Binding} {rr : HookResp} (hr : route hooks conf wid = some (i, b))
+    (he : (run i b).exitZero = true) (ho : (run i b).othersOk = true) (hf : (run i b).file = .valid rr) :
+    (eventHandler hooks run conf wid).1 = .resp rr := by
+  obtain ⟨h1, h2⟩ := taskProp_of_ok he ho hf
+  simp [eventHandler, hr, h1, h2]
+
+/-- only a hook response with `allowed: true` builds an allowing review -/
+theorem buildReview_allowed {uid : String} {ev : EventRet} (h : (buildReview uid ev).allowed = true) :
+    ∃ rr, ev = .resp rr ∧ rr.allowed = true := by
+  cases ev with
+  | err r => cases h
+  | hookFailed => cases h
+  | resp rr => exact ⟨rr, rfl, h⟩
+
 /-- **C14.1 (`fail_closed`).** The answer is `allowed: true` only if the path routes to a hook and
-binding, that hook ran (it is the one reported as run), exited zero, and its response file is one
-valid response with `allowed: true`. In every other case — unknown path, hook failure, empty or
-malformed file, internal error — the request is denied; an undecodable body gets HTTP 400. -/
+binding, that hook ran (it is the one reported as run), exited zero, every other output of the run
+(metric operations, object patch operations) was applied without an error — i.e. the hook task did
+not fail — and its response file is one valid response with `allowed: true`. In every other case —
+unknown path, hook failure, empty or malformed file, internal error — the request is denied; an
+undecodable body gets HTTP 400. -/
 theorem fail_closed (hooks : List Hook) (run : Nat → Binding → Outcome) (path : Str) (uid : String)
     (r : Review) (ran : Option (Nat × Binding))
     (h : respond hooks run path (.ok uid) = (.review r, ran)) (ha : r.allowed = true) :
     ∃ i b rr, ran = some (i, b) ∧ route hooks (detect path).1 (detect path).2 = some (i, b) ∧
-      (run i b).exitZero = true ∧ (run i b).file = .valid rr ∧ rr.allowed = true := by
-  simp only [respond, eventHandler, Prod.mk.injEq, Answer.review.injEq] at h
+      (run i b).exitZero = true ∧ (run i b).othersOk = true ∧ (run i b).file = .valid rr ∧
+      rr.allowed = true := by
+  simp only [respond, Prod.mk.injEq, Answer.review.injEq] at h
   obtain ⟨hr, hran⟩ := h
-  cases hroute : route hooks (detect path).1 (detect path).2 with
-  | none => simp [hroute, buildReview] at hr; rw [← hr] at ha; cases ha
-  | some ib =>
-    obtain ⟨i, b⟩ := ib
-    simp only [hroute] at hr hran
-    by_cases he : (run i b).exitZero = true
-    · simp only [he, Bool.not_true, Bool.false_eq_true, if_false] at hr hran
-      cases hf : (run i b).file with
-      | empty => simp [hf, buildReview] at hr; rw [← hr] at ha; cases ha
-      | malformed => simp [hf, buildReview] at hr; rw [← hr] at ha; cases ha
-      | valid rr =>
-        simp only [hf, buildReview] at hr hran
-        refine ⟨i, b, rr, hran.symm, rfl, he, hf, ?_⟩
-        rw [← hr] at ha; exact ha
-    · simp only [he, Bool.not_false, if_true, buildReview] at hr
-      rw [← hr] at ha; cases ha
+  rw [← hr] at ha
+  obtain ⟨rr, hev, hall⟩ := buildReview_allowed ha
+  obtain ⟨i, b, hroute, he, ho, hf⟩ := eventHandler_resp hev
+  refine ⟨i, b, rr, ?_, hroute, he, ho, hf, hall⟩
+  rw [← hran, eventHandler_ran, hroute]
 
 theorem undecodable_is_400 (hooks : List Hook) (run : Nat → Binding → Outcome) (path : Str) :
     respond hooks run path .garbage = (.http400, none) ∧
     respond hooks run path .noRequest = (.http400, none) := ⟨rfl, rfl⟩
 
+/-- a failed hook task is a denial, whatever the response file says: non-zero exit, an unreadable
+response file, or an error while applying the hook's metric / object patch operations -/
+theorem failed_task_denied (hooks : List Hook) (run : Nat → Binding → Outcome) (path : Str) (uid : String)
+    (r : Review) (i : Nat) (b : Binding)
+    (h : respond hooks run path (.ok uid) = (.review r, some (i, b)))
+    (hfail : taskFails (run i b) = true) : r.allowed = false ∧ r.reason = some .hookFailed := by
+  simp only [respond, Prod.mk.injEq, Answer.review.injEq] at h
+  obtain ⟨hr, hran⟩ := h
+  rw [eventHandler_ran] at hran
+  subst hr
+  simp [eventHandler, hran, hfail, buildReview]
+
 /-- **C14.2 (`relays`).** The answer echoes the request uid; when the hook that ran exited zero with
-a valid response, its verdict, warnings and patch are copied, `patchType` is `JSONPatch` exactly
-when there is a patch, and a denial carries the hook's message. -/
+a valid response (and nothing else of the run failed), its verdict, warnings and patch are copied,
+`patchType` is `JSONPatch` exactly when there is a patch, and a denial carries the hook's message. -/
 theorem relays (hooks : List Hook) (run : Nat → Binding → Outcome) (path : Str) (uid : String)
     (r : Review) (ran : Option (Nat × Binding))
     (h : respond hooks run path (.ok uid) = (.review r, ran)) :
     r.uid = uid ∧
-    ∀ i b rr, ran = some (i, b) → (run i b).exitZero = true → (run i b).file = .valid rr →
+    ∀ i b rr, ran = some (i, b) → (run i b).exitZero = true → (run i b).othersOk = true →
+      (run i b).file = .valid rr →
       r.allowed = rr.allowed ∧ r.warnings = rr.warnings ∧ r.patch = rr.patch ∧
       (r.jsonPatchType = true ↔ rr.patch ≠ "") ∧
       (rr.allowed = false → r.reason = some (.hook rr.message)) := by
-  simp only [respond, eventHandler, Prod.mk.injEq, Answer.review.injEq] at h
+  simp only [respond, Prod.mk.injEq, Answer.review.injEq] at h
   obtain ⟨hr, hran⟩ := h
   constructor
-  · rw [← hr]; cases (match route hooks (detect path).1 (detect path).2 with
-      | none => (EventRet.err Reason.noHook, none)
-      | some (h, b) => _ : EventRet × Option (Nat × Binding)).1 <;> rfl
-  · intro i b rr hi he hf
-    cases hroute : route hooks (detect path).1 (detect path).2 with
-    | none => simp [hroute] at hran; rw [← hran] at hi; cases hi
-    | some ib =>
-      obtain ⟨i', b'⟩ := ib
-      simp only [hroute] at hr hran
-      have hib : (i', b') = (i, b) := by
-        by_cases he' : (run i' b').exitZero = true
-        · simp only [he', Bool.not_true, Bool.false_eq_true, if_false] at hran
-          cases hf' : (run i' b').file <;> simp [hf'] at hran <;> rw [← hran] at hi <;> simpa using hi
-        · simp only [he', Bool.not_false, if_true] at hran
-          rw [← hran] at hi; simpa using hi
-      simp only [Prod.mk.injEq] at hib
-      obtain ⟨rfl, rfl⟩ := hib
-      simp only [he, Bool.not_true, Bool.false_eq_true, if_false, hf, buildReview] at hr
-      subst hr
-      refine ⟨rfl, rfl, rfl, by simp, ?_⟩
-      intro hd; simp [hd]
+  · rw [← hr]; cases (eventHandler hooks run (detect path).1 (detect path).2).1 <;> rfl
+  · intro i b rr hi he ho hf
+    rw [eventHandler_ran, hi] at hran
+    rw [eventHandler_of_ok hran he ho hf] at hr
+    subst hr
+    refine ⟨rfl, rfl, rfl, by simp [buildReview], ?_⟩
+    intro hd; simp [buildReview, hd]
 
 theorem defaultConf_ok : slashFree defaultConfigurationId ∧ defaultConfigurationId ≠ [] := by
   constructor
@@ -150,15 +211,7 @@ theorem routing (hooks : List Hook) (hu : UniqueIds hooks) (hk : Hook) (hhk : hk
 /-- who ran is who `route` chose -/
 theorem ran_eq_route (hooks : List Hook) (run : Nat → Binding → Outcome) (path : Str) (uid : String) :
     (respond hooks run path (.ok uid)).2 = route hooks (detect path).1 (detect path).2 := by
-  simp only [respond, eventHandler]
-  cases route hooks (detect path).1 (detect path).2 with
-  | none => rfl
-  | some ib =>
-    obtain ⟨i, b⟩ := ib
-    simp only
-    split
-    · rfl
-    · split <;> rfl
+  simp only [respond, eventHandler_ran]
 
 /-- **C14 as one statement.** The property predicate that the check evaluates on every observed
 exchange (`checkObs`: uid echoed; who ran registered the path; with unique ids the registrant of the
@@ -209,22 +262,25 @@ theorem respond_ok (hooks : List Hook) (run : Nat → Binding → Outcome) (path
         refine ⟨⟨hk, hm, hid, hb⟩, ?_⟩
         rw [← hc, ← hw]
       simp only [hreg, Bool.not_true, Bool.false_eq_true, if_false, huniq]
-      have hfc : r.allowed = true → ∃ rr, (run i b).exitZero = true ∧ (run i b).file = .valid rr := by
+      have hfc : r.allowed = true → ∃ rr, (run i b).exitZero = true ∧ (run i b).othersOk = true ∧
+          (run i b).file = .valid rr := by
         intro ha
-        obtain ⟨i', b', rr, hi, _, he', hf', _⟩ := fail_closed hooks run path uid r _ hres ha
+        obtain ⟨i', b', rr, hi, _, he', ho', hf', _⟩ := fail_closed hooks run path uid r _ hres ha
         simp only [Option.some.injEq, Prod.mk.injEq] at hi
         obtain ⟨rfl, rfl⟩ := hi
-        exact ⟨rr, he', hf'⟩
-      cases he : (run i b).exitZero with
+        exact ⟨rr, he', ho', hf'⟩
+      cases hq : ((run i b).exitZero && (run i b).othersOk) with
       | false =>
         by_cases ha : r.allowed = true
-        · obtain ⟨_, he', _⟩ := hfc ha
-          rw [he] at he'; cases he'
+        · obtain ⟨_, he', ho', _⟩ := hfc ha
+          rw [he', ho'] at hq; cases hq
         · simp [ha]
       | true =>
+        have hq' := hq
+        simp only [Bool.and_eq_true] at hq'
         cases hf : (run i b).file with
         | valid rr =>
-          obtain ⟨h1, h2, h3, h4, h5⟩ := hrel i b rr rfl he hf
+          obtain ⟨h1, h2, h3, h4, h5⟩ := hrel i b rr rfl hq'.1 hq'.2 hf
           simp only [h1, h2, h3, not_true_eq_false, if_false]
           have h4' : r.jsonPatchType = !decide (rr.patch = "") := by
             cases hj : r.jsonPatchType <;> by_cases hp : rr.patch = "" <;> simp_all
@@ -233,14 +289,79 @@ theorem respond_ok (hooks : List Hook) (run : Nat → Binding → Outcome) (path
           | false => simp [h4', h5 hall]
         | empty =>
           by_cases ha : r.allowed = true
-          · obtain ⟨_, _, hf'⟩ := hfc ha
+          · obtain ⟨_, _, _, hf'⟩ := hfc ha
             rw [hf] at hf'; cases hf'
           · simp [ha]
         | malformed =>
           by_cases ha : r.allowed = true
-          · obtain ⟨_, _, hf'⟩ := hfc ha
+          · obtain ⟨_, _, _, hf'⟩ := hfc ha
             rw [hf] at hf'; cases hf'
           · simp [ha]
+
+/-! ## overlapping requests: every run reads its own response file -/
+
+theorem fileExec_own_aux (name : Nat → Nat) (hinj : ∀ a b, name a = name b → a = b) (r : Nat) :
+    ∀ (t : List FileEv) (s1 s2 : FileSt),
+      s1.files (name r) = s2.files (name r) → s1.seen r = s2.seen r →
+      (t.foldl (fileStep name) s1).files (name r)
+          = ((t.filter (fun e => e.run == r)).foldl (fileStep name) s2).files (name r) ∧
+        (t.foldl (fileStep name) s1).seen r
+          = ((t.filter (fun e => e.run == r)).foldl (fileStep name) s2).seen r
+  | [], _, _, hf, hs => ⟨hf, hs⟩
+  | e :: t, s1, s2, hf, hs => by
+    by_cases he : e.run = r
+    · have hk : (e.run == r) = true := by simp [he]
+      simp only [List.filter_cons, hk, if_true, List.foldl_cons]
+      apply fileExec_own_aux name hinj r t
+      · cases e <;> simp only [FileEv.run] at he <;> subst he <;> simp [fileStep, hf]
+      · cases e <;> simp only [FileEv.run] at he <;> subst he <;> simp [fileStep, hf, hs]
+    · have hk : (e.run == r) = false := by simp [he]
+      simp only [List.filter_cons, hk, Bool.false_eq_true, if_false, List.foldl_cons]
+      apply fileExec_own_aux name hinj r t
+      · have hne : name r ≠ name e.run := fun h => he (hinj _ _ h).symm
+        cases e <;> simp only [FileEv.run] at hne <;> simp [fileStep, hne, hf]
+      · cases e <;> simp only [FileEv.run] at he <;> simp [fileStep, hs, Ne.symm he]
+
+/-- **C14.4 (`own_response_file`).** When no two runs share a response file name, what a run's
+`ResponseFromFile` finds depends on that run's own steps only — for every interleaving of any
+number of overlapping runs (of the same hook or of different hooks). -/
+theorem own_response_file (name : Nat → Nat) (hinj : ∀ a b, name a = name b → a = b)
+    (t : List FileEv) (r : Nat) :
+    (fileExec name t).seen r = (fileExec name (t.filter (fun e => e.run == r))).seen r :=
+  (fileExec_own_aux name hinj r t .init .init rfl rfl).2
+
+/-- … so a run that was prepared, wrote `c` and finished reads `c`, whatever the other runs did in
+between; a run whose hook wrote nothing reads the empty file -/
+theorem own_response_file_written (name : Nat → Nat) (hinj : ∀ a b, name a = name b → a = b)
+    (t : List FileEv) (r : Nat) (c : FileContent) :
+    (t.filter (fun e => e.run == r) = [.prepare r, .write r c, .finish r] →
+      (fileExec name t).seen r = [some c]) ∧
+    (t.filter (fun e => e.run == r) = [.prepare r, .finish r] →
+      (fileExec name t).seen r = [some .empty]) := by
+  constructor <;> intro h <;> rw [own_response_file name hinj t r, h] <;>
+    simp [fileExec, fileStep, FileSt.init]
+
+/-- the name `prepareAdmissionResponseFile` builds has a per-run part (regenerated from the source:
+a changed format breaks this proof), hence distinct runs get distinct files -/
+theorem response_file_per_run :
+    ShellOp.Facts.c14ResponseFileFmt = "hook-%s-admission-response-%s.json" ∧
+    ShellOp.Facts.c14ResponseFileArgs = ["h.SafeName()", "uuid.Must(uuid.NewV4()).String()"] ∧
+    perRunResponseFile = true ∧
+    ∀ (hookOf : Nat → Nat) (a b : Nat),
+      responseFileName perRunResponseFile hookOf a = responseFileName perRunResponseFile hookOf b → a = b := by
+  refine ⟨by decide, by decide, by decide, ?_⟩
+  intro hookOf a b h
+  have hp : perRunResponseFile = true := by decide
+  simp only [responseFileName, hp, if_true] at h
+  omega
+
+/-- **C14.4 for the code as it is**: with the file names of `prepareAdmissionResponseFile`, a run
+that wrote `c` is judged on `c` in every interleaving with other runs -/
+theorem overlapping_runs_keep_their_verdict (hookOf : Nat → Nat) (t : List FileEv) (r : Nat) (c : FileContent)
+    (h : t.filter (fun e => e.run == r) = [.prepare r, .write r c, .finish r]) :
+    ((fileExec (responseFileName perRunResponseFile hookOf) t).seen r).map seenFile = [c] := by
+  rw [(own_response_file_written _ (response_file_per_run.2.2.2 hookOf) t r c).1 h]
+  rfl
 
 /-! ## `SafeURLString` yields URL-safe ids -/
 
@@ -302,9 +423,9 @@ private def twoHooks : List Hook :=
   [⟨1, [B .validating "a.example.com", B .mutating "myHook"]⟩, ⟨2, [B .validating "b.example.com", B .mutating "hooks/nextHook"]⟩]
 private def patchText : String := "[{\"op\":\"add\",\"path\":\"/metadata/labels/x\",\"value\":\"y\"}]"
 private def runEx : Nat → Binding → Outcome := fun i b =>
-  if i = 1 ∧ b.kind = .mutating then ⟨true, .valid ⟨true, "", ["w1", "w2"], patchText⟩⟩
-  else if i = 2 ∧ b.kind = .validating then ⟨true, .valid ⟨false, "denied by b", [], ""⟩⟩
-  else ⟨false, .valid ⟨true, "", [], ""⟩⟩
+  if i = 1 ∧ b.kind = .mutating then ⟨true, .valid ⟨true, "", ["w1", "w2"], patchText⟩, true⟩
+  else if i = 2 ∧ b.kind = .validating then ⟨true, .valid ⟨false, "denied by b", [], ""⟩, true⟩
+  else ⟨false, .valid ⟨true, "", [], ""⟩, true⟩
 
 /-- `routing` is not vacuous: unique ids, the registered path of the mutating binding of hook 1 -/
 example : uniqueIds twoHooks = true ∧ registeredPath "myHook".toList = "/hooks/my-hook".toList ∧
@@ -350,11 +471,39 @@ theorem empty_segment_witness :
 (malformed), the answer `allowed: true` violates the property -/
 theorem trailing_garbage_witness :
     let hooks : List Hook := [⟨1, [B .validating "a.example.com"]⟩]
-    let asDecoded : Nat → Binding → Outcome := fun _ _ => ⟨true, .valid ⟨true, "", [], ""⟩⟩
-    let asWritten : Nat → Binding → Outcome := fun _ _ => ⟨true, .malformed⟩
+    let asDecoded : Nat → Binding → Outcome := fun _ _ => ⟨true, .valid ⟨true, "", [], ""⟩, true⟩
+    let asWritten : Nat → Binding → Outcome := fun _ _ => ⟨true, .malformed, true⟩
     let r := respond hooks asDecoded "/hooks/a-example-com".toList (.ok "u")
     checkObs hooks asWritten "/hooks/a-example-com".toList (.ok "u") r.1 r.2
       = some "allowed-although-the-hook-failed-or-wrote-no-valid-response" := by decide
+
+/-- `failed_task_denied` is not vacuous: the hook exits 0 and writes `allowed: true`, but one of its
+metric / object patch operations cannot be applied — the task fails and the request is denied -/
+example :
+    let run : Nat → Binding → Outcome := fun _ _ => ⟨true, .valid ⟨true, "", [], ""⟩, false⟩
+    taskFails (run 1 (B .validating "a.example.com")) = true ∧
+    respond twoHooks run "/hooks/a-example-com".toList (.ok "u-5")
+      = (.review ⟨"u-5", false, 403, some .hookFailed, [], "", false⟩, some (1, B .validating "a.example.com")) := by
+  decide
+
+/-- the check rejects an answer that relays `allowed: true` of a run whose task failed that way -/
+theorem failed_task_allowed_witness :
+    let run : Nat → Binding → Outcome := fun _ _ => ⟨true, .valid ⟨true, "", [], ""⟩, false⟩
+    checkObs twoHooks run "/hooks/a-example-com".toList (.ok "u")
+        (.review ⟨"u", true, 0, none, [], "", false⟩) (some (1, B .validating "a.example.com"))
+      = some "allowed-although-the-hook-failed-or-wrote-no-valid-response" := by decide
+
+/-- the excluded variant of `own_response_file`: one response file per hook (no per-run part in the
+name). Run 1 writes a denial and keeps running, run 2 of the same hook writes `allowed: true`, run 1
+finishes first: run 1 is judged on run 2's verdict, run 2 finds its file removed. -/
+theorem shared_file_witness :
+    let deny : FileContent := .valid ⟨false, "no", [], ""⟩
+    let allow : FileContent := .valid ⟨true, "", [], ""⟩
+    let t : List FileEv := [.prepare 1, .write 1 deny, .prepare 2, .write 2 allow, .finish 1, .finish 2]
+    let shared := fileExec (responseFileName false (fun _ => 7)) t
+    let own := fileExec (responseFileName true (fun _ => 7)) t
+    shared.seen 1 = [some allow] ∧ shared.seen 2 = [none] ∧
+    own.seen 1 = [some deny] ∧ own.seen 2 = [some allow] := by decide
 
 end Examples
 
